@@ -1668,7 +1668,9 @@ func (s *BgpServer) stopNeighbor(peer *peer, oldState bgp.FSMState, e *fsmMsg) {
 // the configuration determines (as SetDefaultNeighborConfigValues derives it).
 func clearedNeighborState(conf *oc.Neighbor) oc.NeighborState {
 	st := oc.NeighborState{
-		NeighborAddress: conf.Config.NeighborAddress,
+		// the address the neighbour is known by: the configured one, or for
+		// a dynamic or unnumbered neighbour the one it was created with
+		NeighborAddress: conf.State.NeighborAddress,
 		PeerAs:          conf.Config.PeerAs,
 		LocalAs:         conf.Config.LocalAs,
 		PeerType:        conf.Config.PeerType,
